@@ -15,6 +15,15 @@ CHECKS = {
             'select/iter_select/Selector forms are compared with the documented projection. Held on the cases executed.',
             'Trusted: rv/models/xdm.py, libxml2 via lxml 6.1.3; absolute paths only on trees with a document node; namespace-node order unconstrained.',
             'DESIGN.md section 4 (C01)'),
+    'C06': ('exploration',
+            'runtime reference-model monitor: exact-rational / IEEE model of F&O arithmetic over a boundary-value cross product',
+            'All six binary operators over the 4x4 numeric type matrix, unary +/-, abs/floor/ceiling/round/round-half-to-even with '
+            'precisions, operands as literals, constructors, variables and untyped node content, for the 1.0-3.1 parsers, are '
+            'evaluated by the real engine and compared (value, sign of zero, dynamic result type, error code) with a Fraction / '
+            'binary32-binary64 transcription of F&O section 4; the idiv/mod identity is checked engine-only.',
+            'Trusted: rv/models/numeric.py, CPython float/Fraction/struct; decimal div compared to 18 significant digits; '
+            'float/double underflow and the 2.0-vs-3.1 idiv definitions are left undecided.',
+            'DESIGN.md section 4 (C06)'),
     'C09': ('exploration',
             'differential runtime monitor: F&O reference string model + libxml2 (XPath 1.0) + engine-only laws on generated Unicode strings',
             'Each generated call of the string functions named in the property (substring with .5/INF/NaN positions, translate, '
